@@ -16,3 +16,12 @@ for _p in sorted(_glob.glob(_os.path.join(_os.path.dirname(_os.path.abspath(__fi
     _m = _ilu.module_from_spec(_spec)
     _spec.loader.exec_module(_m)
     PROPS.update(getattr(_m, "PROPS", {}))
+
+# The differential stream that validates coq/Base/Dec.v (the restatement of cosmossdk.io/math's LegacyDec
+# rounding rules) against the library runs as part of the checks whose models compute with LegacyDec.
+from importlib import util as _u
+_sp = _u.spec_from_file_location("propsd_zz_arith_x", _os.path.join(_os.path.dirname(_os.path.abspath(__file__)), "propsd", "zz_arith.py"))
+_am = _u.module_from_spec(_sp); _sp.loader.exec_module(_am)
+for _pid in ("C05", "C10"):
+    if _pid in PROPS and not any(s.get("name") == "arith" for s in PROPS[_pid]["streams"]):
+        PROPS[_pid]["streams"] = list(PROPS[_pid]["streams"]) + [dict(_am.ARITH_STREAM, codes={0: "base-dec-differs-from-cosmossdk-math"})]
